@@ -122,9 +122,15 @@ func panicDesc(p *Prog, pn *ssa.Panic) string {
 
 // ownerName: a rename-stable name for the place of a construct: the receiver type for methods, "goroutine" for
 // goroutine closures, else the function name.
-func ownerName(fn *ssa.Function) string {
+func ownerName(p *Prog, fn *ssa.Function) string {
 	if fn.Parent() != nil {
-		return "goroutine of " + ownerName(fn.Parent())
+		return "goroutine of " + strings.TrimPrefix(ownerName(p, fn.Parent()), "goroutine of ")
+	}
+	if p.GoOnly[fn] {
+		// a named function that only ever runs on a spawned goroutine is part of that goroutine's body
+		q := *p
+		q.GoOnly = nil
+		return "goroutine of " + ownerName(&q, fn)
 	}
 	if fn.Signature.Recv() != nil {
 		if n := named(fn.Signature.Recv().Type()); n != nil {
@@ -189,7 +195,7 @@ func checkC19(p *Prog, r *Result, tier string) {
 				if !ok {
 					continue
 				}
-				owner := ownerName(f)
+				owner := ownerName(p, f)
 				construct := panicDesc(p, pn)
 				d, ok := table[owner+"/"+construct]
 				switch {
